@@ -123,6 +123,73 @@ let do_scope id =
   let cs = times n parse_change in
   Printf.printf "%s res=%s\n" id (show_scope (checkChangesScope q mode cs))
 
+
+(* ---- reference skeletons *)
+let rec nat_of_int i = if i <= 0 then O else S (nat_of_int (i - 1))
+let next_bool () = next () = "1"
+let parse_col_s () =
+  let n = next_bytes () in
+  let e = (match next () with
+    | "_" -> None
+    | "e" -> let ns = next_opt () in let en = next_bytes () in Some (ns, en)
+    | s -> failwith ("enum " ^ s)) in
+  let c = next_bool () in
+  { c_name = n; c_enum = e; c_comment = c }
+let parse_idx () =
+  let n = next_bytes () in
+  let k = next_int () in
+  let cols = times k next_bytes in
+  let u = next_bool () in
+  let c = next_bool () in
+  { i_name = n; i_cols = cols; i_uconst = u; i_comment = c }
+let parse_fk () =
+  let k = next_int () in
+  let cols = times k next_bytes in
+  let r = next_obj () in
+  { f_cols = cols; f_ref = r }
+let parse_tab () =
+  let o = next_obj () in
+  let nc = next_int () in let cols = times nc parse_col_s in
+  let ni = next_int () in let idxs = times ni parse_idx in
+  let nf = next_int () in let fks = times nf parse_fk in
+  let c = next_bool () in
+  { t_obj = o; t_cols = cols; t_idx = idxs; t_fks = fks; t_comment = c }
+let parse_sub () = match next () with
+  | "AC" -> AddColumn (parse_col_s ())
+  | "DC" -> DropColumn (parse_col_s ())
+  | "RC" -> RenameColumn
+  | "AI" -> AddIndex (parse_idx ())
+  | "DI" -> DropIndex (parse_idx ())
+  | "RI" -> let a = next_bytes () in let b = next_bytes () in RenameIndex (a, b)
+  | "AF" -> AddForeignKey (parse_fk ())
+  | "DF" -> DropForeignKey (parse_fk ())
+  | "AK" -> AddCheck (next_bool ())
+  | "DK" -> DropCheck
+  | "TC" -> TableComment
+  | s -> failwith ("sub " ^ s)
+let parse_change_s () = match next () with
+  | "AT" -> AddTable (parse_tab ())
+  | "DT" -> DropTable (parse_tab ())
+  | "RT" -> let a = next_obj () in let b = next_obj () in RenameTable (a, b)
+  | "MT" -> let t = parse_tab () in let k = next_int () in ModifyTable (t, times k parse_sub)
+  | "AO" -> let ns = next_opt () in let n = next_bytes () in AddObject (ns, n)
+  | "DO" -> let ns = next_opt () in let n = next_bytes () in DropObject (ns, n)
+  | "MO" -> let ns = next_opt () in let n = next_bytes () in let k = next_int () in ModifyObject (ns, n, nat_of_int k)
+  | "RO" -> let a = next_bytes () in let b = next_bytes () in RenameObject (a, b)
+  | s -> failwith ("change " ^ s)
+
+let do_skel id =
+  let pg = next_bool () in
+  let q = next_opt () in
+  let n = next_int () in
+  let cs = times n parse_change_s in
+  let lines = Stdlib.List.map (fun ((rev, head), chains) ->
+    let ch = Stdlib.List.map (fun c -> String.concat "." (Stdlib.List.map (fun b -> hex (string_of_bytes b)) c)) chains in
+    Printf.sprintf "%s %s %s %s" id (if rev then "r" else "c")
+      (String.concat "_" (String.split_on_char ' ' (string_of_bytes head)))
+      (if ch = [] then "-" else String.concat "," ch)) (plan_chains pg q cs) in
+  Stdlib.List.iter print_endline (Stdlib.List.sort compare lines)
+
 let () =
   let mode = if Array.length Sys.argv > 1 then Sys.argv.(1) else "builder" in
   (try
@@ -136,6 +203,7 @@ let () =
         | "builder" -> do_builder id
         | "pgident" -> do_pgident id
         | "scope" -> do_scope id
+        | "skel" -> do_skel id
         | m -> failwith ("mode " ^ m)
       end
     done
